@@ -14,6 +14,17 @@
 //!                  variant of the settings (router_id_template of the bmp unit: 0 `{sys_name}`, 1 `a{sys_name}`, 2 `b{sys_name}`)
 //!   V k            which variant's router-id template labels router k's series in GET /metrics: t:<v>
 //!   G k            how many different ingress ids router k has been given so far: g:<n>
+//!   F s            (first op only) the start-up configuration names a Roto script of variant s
+//!   W s [1]        the operator edits the script: variant s from now on (0: `roto_script` is taken out of the configuration);
+//!                  with 1 under a new file name, which the configuration then names. Takes effect with the next H / L.
+//!   Y y            the operator edits the configuration: second unit `rib2` absent (0) / a rib sourcing the bmp unit,
+//!                  answering at /rib2/ (1) / a unit of another type (bgp-tcp-in) of that name (2). Takes effect with the next H / L.
+//!   P af p         as Q, asked of `rib2`: p:<entries> (p:- when nothing answers at /rib2/)
+//! Script variants (rib-in-pre is what the RIB units fetch when they are started): 1..8 `rib-in-pre` rejects the routes of
+//! prefix 10.<s>.0.0/16 (prefix s of the R ops; the peers of these cases have no 4-octet-AS capability, so the AS-path
+//! predicates see nothing in their routes); 9 a script without a rib-in-pre filter.
+//! A case with F / W / Y ops keeps its files in <verif>/.cache/e2e/<pid>-<n>/ and loads the configuration from the file
+//! (ConfigFile::load, as src/main.rs does at start-up and on SIGHUP); `roto_script` is relative to the configuration file.
 //! Per op one token (`-` for the non-observing ones); M prints two:
 //!   m:<as pipe>|-   n:<bmp_num_connected_routers>,<accepted>,<lost>
 use crate::engines::pipe::{eor_bytes, first_hop_value, malformed_update, metrics_vec_label, pph, prefix_str, update_bytes, POOL};
@@ -24,6 +35,8 @@ use rotonda::manager::Manager;
 use std::collections::BTreeMap;
 use std::io::{Read, Write};
 use std::net::{Ipv4Addr, SocketAddr, SocketAddrV4, TcpListener, TcpStream};
+use std::path::PathBuf;
+use std::sync::atomic::{AtomicU32, Ordering};
 use std::time::{Duration, Instant};
 
 const UNIT: &str = "bmp-in";
@@ -99,6 +112,33 @@ fn metric_sum(text: &str, name: &str, labels: &[(&str, &str)]) -> Option<u64> {
     sum
 }
 
+// ------------------------------------------------------------------ configuration files of a case
+/// what the operator's files say now (they take effect with the next load)
+#[derive(Clone, Copy, PartialEq)]
+struct Desired {
+    script: u32,   // 0: no roto_script in the configuration
+    file_no: u32,  // the script's file name: filters.roto, filters-1.roto, ...
+    rib2: u32,     // 0 absent, 1 rib, 2 bgp-tcp-in
+}
+
+fn script_name(n: u32) -> String { if n == 0 { "filters.roto".into() } else { format!("filters-{n}.roto") } }
+
+fn script_text(s: u32) -> String {
+    if s == 9 {
+        return "filter bmp-in(bmp_msg: BmpMsg, prov: Provenance) {\n    accept\n}\n".into();
+    }
+    format!("filter rib-in-pre(route: Route) {{\n    if route.prefix_matches({}) {{\n        reject\n    }} else {{\n        accept\n    }}\n}}\n", prefix_str(0, s))
+}
+
+/// <verif>/.cache/target/release/vh  ->  <verif>/.cache/e2e/<pid>-<n>
+fn case_dir() -> PathBuf {
+    static N: AtomicU32 = AtomicU32::new(0);
+    let exe = std::env::current_exe().expect("current_exe");
+    let cache = exe.ancestors().nth(3).expect("vh lives in <verif>/.cache/target/<profile>/").to_path_buf();
+    assert!(cache.ends_with(".cache"), "vh is expected to live in <verif>/.cache/target/<profile>/");
+    cache.join("e2e").join(format!("{}-{}", std::process::id(), N.fetch_add(1, Ordering::SeqCst)))
+}
+
 struct Conn {
     stream: TcpStream,
     written: u64,
@@ -123,35 +163,68 @@ struct World {
     rids: BTreeMap<u32, u32>,        // router ingress id -> router key k (every id ever seen for k)
     notes: Vec<(u32, usize)>,        // (k, pool index): a Peer Up of that wire identity was taken by the session
     stalled: Option<String>,
+    dir: Option<PathBuf>,            // the case's files (cases with F / W / Y ops)
+    desired: Desired,
+    bgp_port: u16,
 }
 
-fn config_text(bmp_port: u16, http_port: u16, variant: usize) -> String {
+fn config_text(bmp_port: u16, http_port: u16, variant: usize, d: &Desired, bgp_port: u16) -> String {
     let tpl = TEMPLATES[variant];
+    // debugging aid: VH_E2E_LOG=<level> makes rotonda log at that level to stderr (World::start then also initialises its logger)
+    let lvl = std::env::var("VH_E2E_LOG").unwrap_or_else(|_| "error".into());
+    let script = if d.script == 0 { String::new() } else { format!("roto_script = \"{}\"\n", script_name(d.file_no)) };
+    let rib2 = match d.rib2 {
+        1 => format!("\n[units.rib2]\ntype = \"rib\"\nsources = [\"{UNIT}\"]\nhttp_api_path = \"/rib2/\"\n\n[targets.null2]\ntype = \"null-out\"\nsources = [\"rib2\"]\n"),
+        2 => format!("\n[units.rib2]\ntype = \"bgp-tcp-in\"\nlisten = \"127.0.0.1:{bgp_port}\"\nmy_asn = 64512\nmy_bgp_id = [1, 2, 3, 4]\n\n[targets.null2]\ntype = \"null-out\"\nsources = [\"rib2\"]\n"),
+        _ => String::new(),
+    };
     format!(
-        "http_listen = [\"127.0.0.1:{http_port}\"]\nlog_level = \"error\"\nlog_target = \"stderr\"\n\n\
+        "http_listen = [\"127.0.0.1:{http_port}\"]\nlog_level = \"{lvl}\"\nlog_target = \"stderr\"\n{script}\n\
          [units.{UNIT}]\ntype = \"bmp-tcp-in\"\nlisten = \"127.0.0.1:{bmp_port}\"\nrouter_id_template = \"{tpl}\"\n\n\
          [units.rib]\ntype = \"rib\"\nsources = [\"{UNIT}\"]\n\n\
-         [targets.null]\ntype = \"null-out\"\nsources = [\"rib\"]\n"
+         [targets.null]\ntype = \"null-out\"\nsources = [\"rib\"]\n{rib2}"
     )
+}
+
+/// The configuration as a ConfigFile: from memory (no path: a `roto_script` would not be looked for), or, for a case with
+/// files, written to <dir>/rotonda.conf and loaded from there as src/main.rs does.
+fn config_file(dir: &Option<PathBuf>, text: String) -> ConfigFile {
+    match dir {
+        None => ConfigFile::new(text.into_bytes(), Source::default()).expect("config file"),
+        Some(d) => {
+            let p = d.join("rotonda.conf");
+            std::fs::write(&p, text).expect("write rotonda.conf");
+            ConfigFile::load(&p).expect("config file")
+        }
+    }
 }
 
 impl World {
     /// What src/main.rs does: load the config through the manager, start the HTTP server, spawn the units.
-    fn start() -> World {
-        let ports = pick_ports(4);
+    fn start(files: bool, script: u32) -> World {
+        let ports = pick_ports(5);
+        if std::env::var("VH_E2E_LOG").is_ok() { let _ = Config::init(); }
+        let desired = Desired { script, file_no: 0, rib2: 0 };
+        let dir = if files {
+            let d = case_dir();
+            std::fs::create_dir_all(&d).expect("case directory");
+            if script != 0 { std::fs::write(d.join(script_name(0)), script_text(script)).expect("write script"); }
+            Some(d)
+        } else { None };
         let rt = tokio::runtime::Builder::new_multi_thread().worker_threads(2).enable_all().build().unwrap();
         let mgr = {
             let _g = rt.enter();
             let mut mgr = Manager::new();
-            let file = ConfigFile::new(config_text(ports[0], ports[1], 0).into_bytes(), Source::default()).expect("config file");
+            let file = config_file(&dir, config_text(ports[0], ports[1], 0, &desired, ports[4]));
             let (_src, mut config) = match Config::from_config_file(file, &mut mgr) { Ok(x) => x, Err(_) => panic!("config rejected") };
             if config.http.run(mgr.metrics(), mgr.http_resources()).is_err() { panic!("http server did not start"); }
             mgr.spawn(&mut config);
             mgr
         };
         let mut w = World {
-            rt: Some(rt), mgr, bmp_port: ports[0], http_port: ports[1], spare_ports: ports[2..].to_vec(),
+            rt: Some(rt), mgr, bmp_port: ports[0], http_port: ports[1], spare_ports: ports[2..4].to_vec(),
             conns: BTreeMap::new(), accepted: 0, lost: 0, binds: 1, reloaded: false, variant: 0, ids_of: BTreeMap::new(), rids: BTreeMap::new(), notes: vec![], stalled: None,
+            dir, desired, bgp_port: ports[4],
         };
         // the pipeline is up when the bmp-tcp-in unit has bound its listener (units start together, after their waitpoint)
         w.wait_metrics("listener bound", |t| metric_sum(t, "bmp_tcp_in_listener_bound_count_total", &[("component", UNIT)]) == Some(1));
@@ -160,8 +233,19 @@ impl World {
 
     fn stop(mut self) {
         self.conns.clear();
-        { let _g = self.rt.as_ref().unwrap().enter(); self.mgr.terminate(); }
+        // Manager::terminate waits, spinning, until every unit has closed its command channel. A case that stalled may have
+        // left a unit that no longer takes commands (that is what the stall reports): then the runtime is dropped with its tasks.
+        if self.stalled.is_none() { let _g = self.rt.as_ref().unwrap().enter(); self.mgr.terminate(); }
         if let Some(rt) = self.rt.take() { rt.shutdown_timeout(Duration::from_millis(500)); }
+        if let Some(d) = self.dir.take() { if !debug() { let _ = std::fs::remove_dir_all(d); } }
+    }
+
+    /// the operator edits the script (and, for a new file name or a removed script, the configuration)
+    fn edit_script(&mut self, s: u32, new_name: bool) {
+        let Some(d) = self.dir.clone() else { return };
+        if new_name { self.desired.file_no += 1; }
+        self.desired.script = s;
+        if s != 0 { std::fs::write(d.join(script_name(self.desired.file_no)), script_text(s)).expect("write script"); }
     }
 
     fn get(&self, path: &str) -> Option<(u16, String)> { http_get(self.http_port, path) }
@@ -364,27 +448,37 @@ impl World {
         }
         {
             let _g = self.rt.as_ref().unwrap().enter();
-            let file = ConfigFile::new(config_text(self.bmp_port, self.http_port, self.variant).into_bytes(), Source::default()).expect("config file");
+            let file = config_file(&self.dir, config_text(self.bmp_port, self.http_port, self.variant, &self.desired, self.bgp_port));
             let (_src, mut config) = match Config::from_config_file(file, &mut self.mgr) { Ok(x) => x, Err(_) => panic!("config rejected") };
             self.mgr.spawn(&mut config);
+        }
+        if self.dir.is_some() {
+            // every unit has taken the reload - the old ones their Reconfigure (the rib units are subscribed to the bmp
+            // unit's new gate again), a unit started by this reload has connected its links and runs (guarded hook
+            // Manager::verif_settle: each unit answers a ReportLinks sent after the reload)
+            let r = self.rt.as_ref().unwrap().block_on(self.mgr.verif_settle(Duration::from_millis(if self.stalled.is_some() { 50 } else { STALL_MS })));
+            if let Err(unit) = r { if self.stalled.is_none() { self.stalled = Some(format!("unit {unit} did not take the reload")); } }
         }
         if rebind {
             // the unit counts every successful bind of its listener
             self.binds += 1;
             let b = self.binds;
             self.wait_metrics("listener re-bound", |t| metric_sum(t, "bmp_tcp_in_listener_bound_count_total", &[("component", UNIT)]) == Some(b));
-        } else {
+        } else if self.dir.is_none() {
             // nothing observable says that the units have taken an unchanged configuration: give the reconfigure tasks time
             std::thread::sleep(Duration::from_millis(20));
         }
         self.barrier();
     }
 
-    fn query(&mut self, af: u32, p: u32) -> String {
-        let path = format!("/prefixes/{}", prefix_str(af, p));
-        let Some((st, body)) = self.get(&path) else { return "q:http-error".into() };
-        if st != 200 { return format!("q:http-{st}"); }
-        let Ok(v) = serde_json::from_str::<serde_json::Value>(&body) else { return "q:bad-json".into() };
+    fn query(&mut self, af: u32, p: u32) -> String { self.query_at("/prefixes/", "q", af, p) }
+
+    fn query_at(&mut self, base: &str, tag: &str, af: u32, p: u32) -> String {
+        let path = format!("{base}{}", prefix_str(af, p));
+        let Some((st, body)) = self.get(&path) else { return format!("{tag}:http-error") };
+        if st == 404 && tag == "p" { return "p:-".into(); }
+        if st != 200 { return format!("{tag}:http-{st}"); }
+        let Ok(v) = serde_json::from_str::<serde_json::Value>(&body) else { return format!("{tag}:bad-json") };
         let mut es: Vec<String> = vec![];
         for r in v.get("data").and_then(|d| d.as_array()).cloned().unwrap_or_default() {
             let id = r.get("ingress_id").and_then(|x| x.as_u64()).unwrap_or(u64::MAX);
@@ -395,7 +489,7 @@ impl World {
             for x in names { es.push(format!("{x}={st}{a}")); }
         }
         es.sort();
-        format!("q:{}", es.join(","))
+        format!("{tag}:{}", es.join(","))
     }
 
     /// wire identities an ingress id stands for, from what the API says about it:
@@ -420,9 +514,12 @@ impl World {
 }
 
 pub fn run_case(line: &str) -> String {
-    let mut w = World::start();
+    let all = ops(line);
+    let files = all.iter().any(|o| matches!(o[0], "F" | "W" | "Y"));
+    let startup = match all.first() { Some(o) if o[0] == "F" => o[1].parse::<u32>().unwrap(), _ => 0 };
+    let mut w = World::start(files, startup);
     let mut out: Vec<String> = vec![];
-    for op in ops(line) {
+    for op in all {
         let n = |i: usize| op[i].parse::<u32>().unwrap();
         match op[0] {
             "C" => {
@@ -481,7 +578,16 @@ pub fn run_case(line: &str) -> String {
                     Some(_) => format!("g:{}", w.ids_of.get(&k).map(|v| v.len()).unwrap_or(0)),
                 });
             }
-            "O" | "A" | "Z" => out.push("-".into()),
+            "O" | "A" | "Z" | "F" => out.push("-".into()),
+            "W" => {
+                w.edit_script(n(1), op.get(2).map(|x| *x == "1").unwrap_or(false));
+                out.push("-".into());
+            }
+            "Y" => {
+                w.desired.rib2 = n(1).min(2);
+                out.push("-".into());
+            }
+            "P" => out.push(w.query_at("/rib2/", "p", n(1), n(2))),
             "Q" => out.push(w.query(n(1), n(2))),
             "M" => {
                 let k = n(1);
@@ -497,7 +603,7 @@ pub fn run_case(line: &str) -> String {
             _ => panic!("bad op {:?}", op),
         }
     }
-    let stalled = w.stalled.take();
+    let stalled = w.stalled.clone();
     w.stop();
     match stalled {
         Some(what) => format!("STALL {} | {}", what.replace(' ', "_"), out.join(" ")),
@@ -512,7 +618,7 @@ pub fn special(name: &str, args: &[String]) -> bool {
         let rounds: usize = args.first().and_then(|x| x.parse().ok()).unwrap_or(50);
         let mut stuck = 0;
         for _ in 0..rounds {
-            let mut w = World::start();
+            let mut w = World::start(false, 0);
             w.connect(0);
             w.send(0, &enc::mk_initiation_msg("r", "d"));
             w.send(0, &enc::mk_peer_up_notification_msg(&pph(0), "10.0.0.1".parse().unwrap(), 11019, 4567, 111, 222, 0, 0, vec![], false));
@@ -536,10 +642,15 @@ pub fn special(name: &str, args: &[String]) -> bool {
     }
     if name == "e2e-raw" {
         // debugging aid: vh e2e-raw '<case>' <path> : run the case, then print one HTTP resource raw
-        let mut w = World::start();
-        for op in ops(&args[0]) {
+        let all = ops(&args[0]);
+        let files = all.iter().any(|o| matches!(o[0], "F" | "W" | "Y"));
+        let startup = match all.first() { Some(o) if o[0] == "F" => o[1].parse::<u32>().unwrap(), _ => 0 };
+        let mut w = World::start(files, startup);
+        for op in all {
             let n = |i: usize| op[i].parse::<u32>().unwrap();
             match op[0] {
+                "W" => w.edit_script(n(1), op.get(2).map(|x| *x == "1").unwrap_or(false)),
+                "Y" => w.desired.rib2 = n(1).min(2),
                 "C" => w.connect(n(1)),
                 "I" => { w.send(n(1), &enc::mk_initiation_msg("r", "d")); }
                 "U" => { w.send(n(1), &enc::mk_peer_up_notification_msg(&pph(n(2) as usize), "10.0.0.1".parse().unwrap(), 11019, 4567, 111, 222, 0, 0, vec![], n(3) == 1)); }
